@@ -25,6 +25,7 @@ func C10(c *core.Ctx) {
 	c10Unmarshal(c)
 	c10SignedFlag(c)
 	c10ContextPropagation(c)
+	c10UnsignThenValidate(c)
 	// R6: a verification that succeeds has verified every signature (C09-R4, re-reported): the
 	// outcome of verify after any history of sign / edit / sign does not depend on which
 	// signature happens to come first
@@ -521,5 +522,115 @@ func c10ContextPropagation(c *core.Ctx) {
 		c.Ob("C10-R5", fd.Name()+"#context-passed-on", fd.Decl.Pos(), bad == "",
 			"the context does not reach the nested validation ("+bad+"): rules that depend on the envelope being signed (code required to sign, stamps only when signed) are not applied below this point")
 		_ = n
+	}
+}
+
+// c10UnsignThenValidate — C10-R7: stamps are only valid on a signed envelope, so
+// whether an envelope validates depends on its signatures. A function that
+// takes the signatures away (x.Signatures = nil, x.Unsign()) and also validates
+// the envelope must validate what it hands back: no success return is reachable
+// from the removal without a validation of the same envelope after it.
+// (`gobl build` drops earlier signatures: done after validating, it returns an
+// unsigned envelope that still carries stamps and fails its own Validate.)
+func c10UnsignThenValidate(c *core.Ctx) {
+	p := c.P
+	c.Rule("C10-R7", "an envelope is validated after its signatures were removed, not before", 1)
+	env := p.Named("", "Envelope")
+	if env == nil {
+		c.Ob("C10-R7", "UNRESOLVED:Envelope", token.NoPos, false, "type not found")
+		return
+	}
+	isEnv := func(t types.Type) bool {
+		n, _ := core.StructOf(t)
+		return n == env
+	}
+	n := 0
+	for _, fd := range p.AllFuncs() {
+		if p.IsTestFile(fd.Decl.Pos()) || fd.Decl.Body == nil {
+			continue
+		}
+		info := fd.Pkg.TypesInfo
+		type site struct {
+			node ast.Node
+			v    *types.Var
+		}
+		var clears, validates []site
+		ast.Inspect(fd.Decl.Body, func(m ast.Node) bool {
+			switch x := m.(type) {
+			case *ast.AssignStmt:
+				for i, l := range x.Lhs {
+					se, ok := ast.Unparen(l).(*ast.SelectorExpr)
+					if !ok || se.Sel.Name != "Signatures" || !isEnv(info.TypeOf(se.X)) || i >= len(x.Rhs) || !core.IsNil(info, x.Rhs[i]) {
+						continue
+					}
+					if v := core.VarOf(info, se.X); v != nil {
+						clears = append(clears, site{x, v})
+					}
+				}
+			case *ast.CallExpr:
+				fn := core.Callee(info, x)
+				if fn == nil || core.RecvNamed(fn) != env {
+					return true
+				}
+				v := core.VarOf(info, core.RecvExpr(x))
+				if v == nil {
+					return true
+				}
+				switch fn.Name() {
+				case "Unsign":
+					clears = append(clears, site{x, v})
+				case "Validate", "ValidateWithContext":
+					validates = append(validates, site{x, v})
+				}
+			}
+			return true
+		})
+		if len(clears) == 0 || len(validates) == 0 {
+			continue
+		}
+		ff := core.NewFuncFlow(fd)
+		for i, cl := range clears {
+			n++
+			key := fmt.Sprintf("%s#unsign%d", fd.Name(), i+1)
+			cn := ff.Flow.EnclosingNode(cl.node)
+			if cn == nil {
+				c.Undecided("C10-R7", key, cl.node.Pos(), "the removal could not be located in the control flow graph")
+				continue
+			}
+			bad := ""
+			for _, r := range ff.Flow.Returns() {
+				if !ff.Flow.Reachable(r) || !ff.Flow.CanReach(cn, r) {
+					continue
+				}
+				if k, _ := ff.ClassifyReturn(p, r); k == core.RetFailure {
+					continue
+				}
+				// a validation of the same envelope after the removal, passed on the way to this return
+				okRet := false
+				for _, v := range validates {
+					call := v.node.(*ast.CallExpr)
+					if v.v == cl.v && call.Pos() > cl.node.Pos() && ff.Flow.PassedAt(r)[call] {
+						okRet = true
+					}
+				}
+				// the function's own result is that validation's error: `return env.Validate()`
+				if !okRet && len(r.Results) > 0 {
+					if call, ok := ast.Unparen(r.Results[len(r.Results)-1]).(*ast.CallExpr); ok {
+						for _, v := range validates {
+							if v.node == ast.Node(call) && v.v == cl.v {
+								okRet = true
+							}
+						}
+					}
+				}
+				if !okRet {
+					bad = p.Rel(r.Pos())
+				}
+			}
+			c.Ob("C10-R7", key, cl.node.Pos(), bad == "", fmt.Sprintf("%s removes the envelope's signatures and can return successfully (at %s) without validating the envelope afterwards, although it validated it before: stamps are only accepted on a signed envelope, so what is handed back can be an unsigned envelope with stamps that fails its own Validate", fd.Name(), bad))
+		}
+	}
+	if n == 0 {
+		c.Ob("C10-R7", "UNRESOLVED:unsign-sites", token.NoPos, false, "no function both removes signatures and validates")
 	}
 }
